@@ -301,29 +301,55 @@ pub fn run_c18(ctx: &mut Ctx) {
     }
     let mut rows: Vec<(String, String, &'static str)> = vec![]; // (key, value, table)
     let mut w = Walk { ctx, unsafe_calls: 0 };
+    // "strictly increasing in the integer key order that the lookup's binary search uses": the walker cannot see the
+    // comparator, so it accepts the two integer orders a search over these packed keys can use - the stored integer
+    // itself, or the integer with its bytes swapped (= the order of the text) - and separately requires that the
+    // library's own lookup finds every row (below: `row-not-found-by-lookup`), which is what "the order the search
+    // uses" means observably. A table that is increasing in neither order is reported.
+    let mut recognised: Vec<(&'static str, &'static str)> = vec![];
     macro_rules! order {
-        ($name:expr, $tab:expr, $key:expr) => {{
+        ($name:expr, $tab:expr, $key:expr, $swapped:expr) => {{
             let mut prev = None;
+            let mut prev_sw = None;
+            let (mut native_ok, mut swapped_ok) = (true, true);
+            let mut first_bad: Option<(usize, String)> = None;
             for (i, row) in $tab.iter().enumerate() {
                 mon::begin_case($name.as_bytes());
                 w.ctx.evals += 1;
                 w.ctx.count("rows");
                 let k = $key(row);
+                let ks = $swapped(row);
                 if let Some(p) = prev {
                     if !(p < k) {
-                        w.bad("not-strictly-increasing", $name, i, format!("{} row {}: key {:?} does not follow {:?} in the order the binary search uses", $name, i, k, p));
+                        native_ok = false;
+                        if first_bad.is_none() {
+                            first_bad = Some((i, format!("{} row {}: key {:?} does not follow {:?}", $name, i, k, p)));
+                        }
+                    }
+                }
+                if let Some(p) = prev_sw {
+                    if !(p < ks) {
+                        swapped_ok = false;
                     }
                 }
                 prev = Some(k);
+                prev_sw = Some(ks);
+            }
+            if native_ok {
+                recognised.push(($name, "stored integers (little-endian packed text)"));
+            } else if swapped_ok {
+                recognised.push(($name, "byte-swapped integers (text order)"));
+            } else if let Some((i, d)) = first_bad {
+                w.bad("not-strictly-increasing", $name, i, format!("{} - the table is strictly increasing neither by the stored integers nor by the byte-swapped integers, the key orders a binary search over it can use", d));
             }
         }};
     }
-    order!("LANG_ONLY", hk::LANG_ONLY, |r: &(u64, Val)| r.0);
-    order!("LANG_REGION", hk::LANG_REGION, |r: &(u64, u32, Val)| (r.0, r.1));
-    order!("LANG_SCRIPT", hk::LANG_SCRIPT, |r: &(u64, u32, Val)| (r.0, r.1));
-    order!("SCRIPT_REGION", hk::SCRIPT_REGION, |r: &(u32, u32, Val)| (r.0, r.1));
-    order!("SCRIPT_ONLY", hk::SCRIPT_ONLY, |r: &(u32, Val)| r.0);
-    order!("REGION_ONLY", hk::REGION_ONLY, |r: &(u32, Val)| r.0);
+    order!("LANG_ONLY", hk::LANG_ONLY, |r: &(u64, Val)| r.0, |r: &(u64, Val)| r.0.swap_bytes());
+    order!("LANG_REGION", hk::LANG_REGION, |r: &(u64, u32, Val)| (r.0, r.1), |r: &(u64, u32, Val)| (r.0.swap_bytes(), r.1.swap_bytes()));
+    order!("LANG_SCRIPT", hk::LANG_SCRIPT, |r: &(u64, u32, Val)| (r.0, r.1), |r: &(u64, u32, Val)| (r.0.swap_bytes(), r.1.swap_bytes()));
+    order!("SCRIPT_REGION", hk::SCRIPT_REGION, |r: &(u32, u32, Val)| (r.0, r.1), |r: &(u32, u32, Val)| (r.0.swap_bytes(), r.1.swap_bytes()));
+    order!("SCRIPT_ONLY", hk::SCRIPT_ONLY, |r: &(u32, Val)| r.0, |r: &(u32, Val)| r.0.swap_bytes());
+    order!("REGION_ONLY", hk::REGION_ONLY, |r: &(u32, Val)| r.0, |r: &(u32, Val)| r.0.swap_bytes());
 
     for (i, (k, v)) in hk::LANG_ONLY.iter().enumerate() {
         let kl = w.key_l("LANG_ONLY", i, *k);
@@ -404,6 +430,39 @@ pub fn run_c18(ctx: &mut Ctx) {
     }
     for (k, _, t) in &rows {
         ctx.sig(SigH::new(18).b(t.as_bytes()).b(k.as_bytes()).fin());
+    }
+    // the observable meaning of "the order the lookup's binary search uses": the library's own lookup, asked for
+    // exactly the key of a row, finds that row
+    ctx.extra.insert("key_order_recognised".into(), json!(recognised.iter().map(|(t, o)| json!({"table": t, "strictly_increasing_by": o})).collect::<Vec<_>>()));
+    if !cfg!(miri) {
+        for (i, (k, v, t)) in rows.iter().enumerate() {
+            if k == "und" {
+                continue;
+            }
+            let Ok(mut li) = k.parse::<unic_langid_impl::LanguageIdentifier>() else { continue };
+            mon::begin_case(k.as_bytes());
+            ctx.evals += 1;
+            ctx.count("rows looked up through the library (maximize of the row's key)");
+            match crate::mon::guard(|| {
+                li.maximize();
+                li.to_string()
+            }) {
+                Ok(got) if got == *v => {}
+                Ok(got) => {
+                    ctx.viol_total += 1;
+                    ctx.count("violation:row-not-found-by-lookup");
+                    if ctx.may_minimise("row-not-found-by-lookup") {
+                        ctx.add_violation("row-not-found-by-lookup", json!({"table": t, "row": i, "key": k}), json!(null), format!("{} holds {} -> {}, but looking the key up through the library gives {} (the table is not ordered the way the search walks it, or the search is wrong)", t, k, v, got));
+                    }
+                }
+                Err(p) => {
+                    ctx.viol_total += 1;
+                    if ctx.may_minimise("row-not-found-by-lookup") {
+                        ctx.add_violation("row-not-found-by-lookup", json!({"table": t, "row": i, "key": k}), json!(null), format!("lookup of {} panicked: {}", k, p));
+                    }
+                }
+            }
+        }
     }
     if cfg!(miri) {
         // JSON comparison is done by the native run; Miri only watches the unsafe walk
